@@ -39,7 +39,7 @@ PROPS = {
     ),
     "C02": dict(
         modules=["Whawty.Props.C02", "Whawty.Props.Gen"],
-        suites=[("hdrv", "c02")],
+        suites=[("hdrv", "c02"), ("overlay4", "v02")],
         level_text="auth_iff_record: for ANY bytes as the user's file, authentication succeeds iff the first line parses "
                    "(model of bufio.ReadString, SplitN, strconv.ParseInt/ParseUint, Go's non-strict URL base64) as a record "
                    "of a configured set with matching format id and digest equality; foreign_record_accepted uses the "
@@ -50,7 +50,8 @@ PROPS = {
              "3..7 separators, std/raw/CR-LF/non-canonical base64, digest prefixes/extension/bit flip, CR/LF/NUL insertions, "
              "other algorithm and parameter-set ids (0, unknown, +id, 0id, 2^64-1, 2^64, -1, 0x1), time-stamp edge cases, "
              "64 KiB / 1 MiB lines, random bytes; each observed with right/wrong/empty password, list, list-full, add, "
-             "update, remove.",
+             "update, remove; ten kinds of unsupported / invalid files x both extensions also through the agent's request "
+             "interface (list, list-full, add, authenticate, update, remove).",
         trusted=[T_CRYPTO, T_FS],
         assumptions=["file contents are those of regular files (FIFOs/devices would block open)"],
     ),
